@@ -147,6 +147,38 @@ class Checker:
                 if ids != exp:
                     self.bad("ClassFilterWrapper", "wrong_selection", {key: arg}, f"expected {exp} got {ids}", f"|{key}")
 
+    def class_filter_sparse(self):
+        """Large, sparse label space with long class lists (numpy picks another membership algorithm there)."""
+        L = lib()
+        n, lay = self.n, self.layout
+        if n == 0:
+            return
+        ids = (3, 500, 700)
+        sparse = tuple(ids[c] for c in lay)
+        others = [9, 41, 77, 120, 166, 230, 305, 377, 431, 612, 655, 808, 850, 905, 960]
+        for keep in ([], [3], [500], [700], [3, 700], [500, 700]):
+            V = sorted(others + keep)
+            for key in ("valid_classes", "invalid_classes"):
+                L["np"].random.seed(5)
+                ds = L["ClsDS"](sparse)
+                ds.getshape_class = lambda: (1000,)
+                self.p.evaluations += 1
+                try:
+                    w = L["dw"].ClassFilterWrapper(ds, **{key: V})
+                    got = [int(w.getitem_x(i)) for i in range(len(w))]
+                except REJECT:
+                    continue
+                except Exception as e:
+                    self.bad("ClassFilterWrapper", f"crash:{type(e).__name__}", {key: V}, repr(e), "|sparse_ids")
+                    continue
+                exp = [i for i in range(n) if (sparse[i] in V) == (key == "valid_classes")]
+                if got != exp:
+                    self.p.violation(f"C03:ClassFilterWrapper:wrong_selection|{key}|sparse_ids",
+                                     dict(wrapper="ClassFilterWrapper", layout=list(sparse), kwargs={key: V}, sparse=True),
+                                     f"ClassFilterWrapper({key}={V}) on classes {list(sparse)}: expected {exp} got {got}")
+                else:
+                    self.p.observe(("ClassFilterWrapper", key, tuple(V), sparse, tuple(got)))
+
     def percent_filter(self):
         n = self.n
         full = list(range(n))
@@ -370,7 +402,7 @@ class Checker:
                 self.bad("ClasswiseSubsetWrapper", "percent_complement_not_partition", dict(p=p),
                          f"end={p} gives {a}, start={p} gives {b}", f"|p={'0' if p == 0 else '1' if p == 1 else 'inner'}")
 
-    ALL = ("class_filter", "percent_filter", "subset", "shuffle", "repeat", "oversampling", "sort_by_class",
+    ALL = ("class_filter", "class_filter_sparse", "percent_filter", "subset", "shuffle", "repeat", "oversampling", "sort_by_class",
            "intra_class_shuffle", "fewshot", "classwise_subset")
 
 
@@ -410,6 +442,10 @@ def replay(case):
     p = Partial()
     c = Checker(p, tuple(case["layout"]))
     w = case["wrapper"]
+    if case.get("sparse"):
+        c = Checker(p, tuple({3: 0, 500: 1, 700: 2}[v] for v in case["layout"]))
+        c.class_filter_sparse()
+        return None if not p.violations else "; ".join(m for _, m in list(p.violations.values())[:3])
     name = {"ClassFilterWrapper": "class_filter", "PercentFilterWrapper": "percent_filter", "SubsetWrapper": "subset",
             "ShuffleWrapper": "shuffle", "RepeatWrapper": "repeat", "OversamplingWrapper": "oversampling",
             "SortByClassWrapper": "sort_by_class", "IntraClassShuffleWrapper": "intra_class_shuffle",
